@@ -143,7 +143,7 @@ func NewTree(cfg Config, whiteBox bool, out func(Event)) *Tree {
 		panic(err)
 	}
 	t := &Tree{cfg: cfg, effSlot: si.SlotLength, b: b, im: inmemory.BtreeInterface[int, string]{Btree: b}, repo: repo,
-		ids: map[sop.UUID]int{}, uuidOf: map[int]sop.UUID{}, whiteBox: whiteBox, out: out}
+		ids: map[sop.UUID]int{}, uuidOf: map[int]sop.UUID{}, whiteBox: whiteBox, out: out, sane: true}
 	t.out(Event{Ev: "Setup", Unique: cfg.Unique, Gran: cfg.Gran, Slot: si.SlotLength, LB: cfg.LB, Seq: []int{}, Aff: []int{}, R: "true", Sane: true})
 	return t
 }
